@@ -64,6 +64,13 @@ def parseCOp (s : String) : Option Conc.COp :=
   | ["match", q, t] => do some (.matchQ (← q.toNat?) (← parseId t))
   | ["cancel", id] => (parseId id).map Conc.COp.cancel
   | ["amend", id, n] => do some (.amend (← parseId id) (← n.toNat?))
+  -- the other update kinds run the same code paths: a price different from the level's removes the order exactly as a
+  -- cancel does (UpdatePrice, UpdatePriceAndQuantity, Replace), the level's own price amends the quantity
+  | ["mv.price", id, _] => (parseId id).map Conc.COp.cancel
+  | ["mv.pq", id, _, _] => (parseId id).map Conc.COp.cancel
+  | ["mv.replace", id, _, _, _] => (parseId id).map Conc.COp.cancel
+  | ["same.pq", id, n] => do some (.amend (← parseId id) (← n.toNat?))
+  | ["same.replace", id, n, _] => do some (.amend (← parseId id) (← n.toNat?))
   | ["read", "vis"] => some .readVis
   | ["read", "hid"] => some .readHid
   | ["read", "cnt"] => some .readCnt
